@@ -280,6 +280,30 @@ pub fn run_hostile(tr: &mut Trace, run: u64, seed: u64, log_steps: bool) -> Host
                     }
                 }
             }
+            // memory hog (C06): a burst of frames, each opening one more packet of the receive window that will never be
+            // completed - one fragment only, the first or the LAST one (a last fragment that arrives first is short, the
+            // buffer it opens is not), of two fragments up to as many as the whole allocation holds
+            if r.chance(1, 25) && !p.dead {
+                let limit_frags = ((cfg.rx_alloc[e] + MAX_FRAGMENT_SIZE - 1) / MAX_FRAGMENT_SIZE).max(2) as u16;
+                let last_first = r.chance(2, 3);
+                let nfr = *r.pick(&[2u16, 2, 3, limit_frags / 2 + 1, limit_frags]);
+                let last = nfr.max(2) - 1;
+                let len = if last_first { *r.pick(&[0usize, 1, 10, 700]) } else { MAX_FRAGMENT_SIZE };
+                let s0 = p.ep[e].hc.as_ref().unwrap().verif_snapshot();
+                for j in 0..pw.min(64) {
+                    if p.dead {
+                        break;
+                    }
+                    let s = p.ep[e].hc.as_ref().unwrap().verif_snapshot();
+                    let d = uv::Datagram { sequence_id: pid_add(s0.rx_base, j), channel_id: r.below(3) as u8, window_parent_lead: 0, channel_parent_lead: 0,
+                        fragment_id: if last_first { last } else { 0 }, fragment_id_last: last, data: vec![0xCD; len].into_boxed_slice() };
+                    let f = uv::Frame::DataFrame(uv::DataFrame { sequence_id: s.rf_base, nonce: r.chance(1, 2), datagrams: vec![d] });
+                    if let Some(b) = write_frame(&f) {
+                        injected += 1;
+                        p.handle_bytes(tr, e, &b, json!({"forged": "memory-hog"}));
+                    }
+                }
+            }
             // acknowledgement flood: a burst of empty data frames whose ids are 32 or more apart, each inside the
             // receive window (which follows the latest id), so that every one of them starts an ack group of its own;
             // the endpoint then owes hundreds of groups - more than fit into one ack frame - at its next flush
